@@ -162,7 +162,7 @@ wait:
 	return out
 }
 
-var c13Kinds = []string{"print", "dump", "dumpT", "dumpP", "dumpTP", "traverse", "resolve"} // = harness opKinds
+var c13Kinds = []string{"print", "dump", "dumpT", "dumpP", "dumpTP", "traverse", "resolve", "printP", "null"} // = harness opKinds
 
 // isolatedC13 recomputes ONE entry of a C13 run's reference table (chosen by
 // the run's seed) in a fresh, plain process in which nothing else has run.
